@@ -245,6 +245,9 @@ class Planner:
             return [a], {"size": r.randint(1, max(sh[d], 1)), "dim": d}
         if fn in ("mul", "div"):
             s = {"v": r.choice(SCALARS)}
+            if r.random() < 0.2:
+                # Python ints and bools are scalars too; zero only as a factor
+                s["v"] = r.choice([2, -3, 1, True] + ([0, 0.0] if fn == "mul" else []))
             if r.random() < 0.3:
                 s.update({"as": r.choice(["t0", "t0", "t0", "t1", "t11"]), "dtype": self.sw["t0_dtype"]})
             return [a], {"s": s, "form": r.choice(["ts", "ts", "st", "fn"])}
